@@ -44,6 +44,8 @@ class World(object):
         self.fail_put = None
         self.fail_put_keys = []       # substrings of keys whose puts fail persistently (outlasting client retries)
         self.list_calls = 0
+        self.fail_list_at = None      # number of the listing request (page) that fails once with an injected error
+        self.list_faults_fired = 0
         self.get_calls = 0
         self.observers = []           # callables(seq, op, key) invoked after every mutation (concurrent readers)
 
@@ -149,6 +151,10 @@ class Collection(object):
         last = None
         while True:
             w.list_calls += 1
+            if w.fail_list_at is not None and w.list_calls == w.fail_list_at:
+                w.fail_list_at = None
+                w.list_faults_fired += 1
+                raise InjectedS3Error('injected: listing request %d failed' % w.list_calls)
             objs = w.bucket(self.bucket.name)
             keys = sorted((k for k in objs if k.startswith(self.prefix)), key=lambda k: k.encode('utf-8'))
             if last is not None:
